@@ -133,6 +133,7 @@ claim("C04", "Compartments",
       "DESIGN.md §5 C04")
 
 ENGINES = [
+    {"name": "DatasetNames", "path": "spec/DatasetNames.tla", "serves_properties": [], "kind_free_text": "growth beyond the listed properties: labels of a scheme's datasets (load_datasets / DatasetMapping.loader over sequences and mappings of files and datasets); LaterWins, MappingKeepsAll, LostOnlyByCollision; NoDatasetLost refuted by TLC (named deviation CollisionLoses) + DatasetNamesEmit; harness/x05.py (./check X05)"},
     {"name": "ParamHistory", "path": "spec/ParamHistory.tla", "serves_properties": ["C17"], "kind_free_text": "growth beyond the listed properties: parameter history and restore (append / restore / save-load over two label tuples; AppendOnly, LabelsFixed, ErrorsArePure, RestoreIsRecord, OriginUnobservable) + ParamHistoryEmit; harness/x04.py (./check X04) replays every transition on a real ParameterHistory + Parameters pair"},
     {"name": "ReduceTrace", "path": "spec/ReduceTrace.tla", "serves_properties": ["C08", "C02"], "kind_free_text": "trace acceptor over prepared/stacked events of real matrix providers (Objective!ReduceLabels block by block); harness/reduce_trace.py, run by ./check C08"},
     {"name": "ClpLinkTrace", "path": "spec/ClpLinkTrace.tla", "serves_properties": ["C09"], "kind_free_text": "trace acceptor over aligned events of real linked data providers (ClpLink actions from the recorded axes; stack composition); harness/c09_trace.py, run by ./check C09"},
